@@ -77,7 +77,12 @@ int len;
 	 switch(s[k])
 	  {
 	   case 'Z': case 'D': case 'K':
-             substdio_puts(ss,s + k + 1);
+	    {
+	     /* the last report may lack its terminating \0 */
+	     int e = k + 1;
+	     while ((e < len) && s[e]) ++e;
+	     substdio_put(ss,s + k + 1,e - k - 1);
+	    }
 	  }
      break;
     }
